@@ -15,4 +15,18 @@ SecondOKp(q, cf, p, tau, adm, off1, off2, r, cold, prevAdm) ==
         /\ cold => adm <= lo + tau                         \* cold start / cold again after idling 2p
         /\ (sat /\ r >= 1) => adm >= prevAdm - tau         \* the allowance does not decrease
         /\ (sat /\ r >= 2 * p + 2) => adm >= q - tau       \* warmed up within 2p + 2 seconds
+
+\* the same with a plain reject rule of threshold `cap` next to the warm-up rule on the resource (0 = none):
+\* admissions are bounded by both, so the upper clauses keep their form and the lower ones speak about
+\* min(q, cap)
+SecondOKc(q, cap, cf, p, tau, adm, off1, off2, r, cold, prevAdm) ==
+    LET sat == off1 >= q /\ off2 >= q
+        lo == LoOf(q, cf)
+        qe == IF cap > 0 /\ cap < q THEN cap ELSE q
+        loe == IF lo < qe THEN lo ELSE qe
+    IN  /\ adm <= qe
+        /\ sat => adm >= loe - tau
+        /\ cold => adm <= lo + tau
+        /\ (sat /\ r >= 1) => adm >= (IF prevAdm < qe THEN prevAdm ELSE qe) - tau
+        /\ (sat /\ r >= 2 * p + 2) => adm >= qe - tau
 =============================================================================
